@@ -69,7 +69,15 @@ func (spkd SetPubKeyDecorator) AnteHandle(ctx sdk.Context, tx sdk.Tx, simulate b
 		if err != nil {
 			return ctx, err
 		}
+		// every signer must come with its public key: the signature check below runs over the
+		// signer infos, so a transaction without them would not be verified at all.
+		if len(pubKeys) != len(signers) {
+			return ctx, sdkerrors.ErrUnauthorized.Wrapf("invalid number of signer infos for oracle create-price tx; expected: %d, got %d", len(signers), len(pubKeys))
+		}
 		for i, pk := range pubKeys {
+			if pk == nil {
+				return ctx, sdkerrors.ErrInvalidPubKey.Wrapf("missing pubKey for signer address %s with signer index: %d", signers[i], i)
+			}
 			// addrFromPubk, err := sdk.AccAddressFromBech32(sdk.AccAddress(pk).String())
 			if !bytes.Equal(signers[i], pk.Address()) {
 				return ctx, sdkerrors.ErrInvalidPubKey.Wrapf("pubKey does not match signer address %s with signer index: %d", signers[i], i)
@@ -274,6 +282,10 @@ func (svd SigVerificationDecorator) AnteHandle(ctx sdk.Context, tx sdk.Tx, simul
 		pubKeys, err := sigTx.GetPubKeys()
 		if err != nil {
 			return ctx, err
+		}
+		// check that signer length and signature length are the same
+		if signerAddrs := sigTx.GetSigners(); len(sigs) != len(signerAddrs) {
+			return ctx, sdkerrors.ErrUnauthorized.Wrapf("invalid number of signer;  expected: %d, got %d", len(signerAddrs), len(sigs))
 		}
 		for i, sig := range sigs {
 			pubKey := pubKeys[i]
